@@ -2,6 +2,8 @@ SPECIFICATION GSpec
 CONSTANTS
   Cap = 2
   MaxId = 12
+  Kinds = {"S", "N", "Q", "A"}
+  BatchSizes = {1, 2, 3}
   Defects = {}
   Depth = 14
 CONSTRAINT Emit
